@@ -14,19 +14,20 @@ import (
 
 // StepOut is everything one executed op produced.
 type StepOut struct {
-	Op       Op          `json:"op"`
-	Cmd      Cmd         `json:"cmd"`
-	Exit     int         `json:"exit"`
-	Stdout   string      `json:"stdout"`
-	Stderr   string      `json:"stderr"`
-	Decision string      `json:"decision"`
-	Reasons  []Reason    `json:"reasons,omitempty"`
-	Accepted bool        `json:"accepted"`
-	Viol     []Violation `json:"violations,omitempty"`
-	Abort    string      `json:"abort,omitempty"` // history cannot continue (not a violation)
-	Labels   []string    `json:"labels,omitempty"`
-	Post     *Snapshot   `json:"-"`
-	NewIDs   []string    `json:"new_ids,omitempty"`
+	Op       Op              `json:"op"`
+	Cmd      Cmd             `json:"cmd"`
+	Exit     int             `json:"exit"`
+	Stdout   string          `json:"stdout"`
+	Stderr   string          `json:"stderr"`
+	Decision string          `json:"decision"`
+	Reasons  []Reason        `json:"reasons,omitempty"`
+	Accepted bool            `json:"accepted"`
+	Viol     []Violation     `json:"violations,omitempty"`
+	Abort    string          `json:"abort,omitempty"` // history cannot continue (not a violation)
+	Labels   []string        `json:"labels,omitempty"`
+	Post     *Snapshot       `json:"-"`
+	Touched  map[string]bool `json:"-"`
+	NewIDs   []string        `json:"new_ids,omitempty"`
 }
 
 var idRe = regexp.MustCompile(`^[A-Z0-9]{6}$`)
@@ -137,6 +138,18 @@ func checkJSONContract(res Res) (reply map[string]any, v []Violation) {
 
 // Step executes op against the real store and judges it against the model.
 func (w *World) Step(pre *Snapshot, op Op) StepOut {
+	w.StepNo++
+	if op.Kind == "fork_compact" {
+		return w.forkCompact(pre, op)
+	}
+	out := w.stepMain(pre, op)
+	if w.Twin != nil && out.Post != nil {
+		out.Viol = append(out.Viol, w.stepTwin(op, &out)...)
+	}
+	return out
+}
+
+func (w *World) stepMain(pre *Snapshot, op Op) StepOut {
 	w.writeFiles(op.Files)
 	pred := w.Predict(pre, op)
 	cmd := w.Build(op)
@@ -212,6 +225,7 @@ func (w *World) Step(pre *Snapshot, op Op) StepOut {
 
 	exp, touched, v := w.applyEffect(pre, post, op, reply)
 	out.Viol = append(out.Viol, v...)
+	out.Touched = touched
 	if exp != nil {
 		out.Viol = append(out.Viol, compareExpected(exp, post, pre, touched, op)...)
 	}
@@ -814,4 +828,178 @@ func (o StepOut) Explain() string {
 		Decision string   `json:"decision"`
 	}{o.Cmd.Args, clip(o.Cmd.Stdin, 300), o.Exit, o.Decision})
 	return string(b)
+}
+
+// forkCompact creates the twin: a copy of the store, compacted. The copy must be
+// observably identical to the original (C05), and compacting it again must not change
+// the event sequence (link timestamps excepted: compaction stamps links with "now").
+func (w *World) forkCompact(pre *Snapshot, op Op) StepOut {
+	out := StepOut{Op: op, Decision: MustAccept.String(), Accepted: true, Post: pre}
+	bad := func(f string, a ...any) { out.Viol = append(out.Viol, Violation{"C05", fmt.Sprintf(f, a...)}) }
+	if w.Twin != nil {
+		RemoveAll(w.Twin.Root)
+	}
+	tw := &World{Root: CloneStore(w.Root, "twin"), Pruned: map[string]bool{}, Seen: map[string]bool{}, Origin: map[string][2]int{}, ByOrig: map[[2]int]string{}}
+	for id, o := range w.Origin {
+		tw.Origin[id], tw.ByOrig[o] = o, id
+	}
+	for id := range w.Seen {
+		tw.Seen[id] = true
+	}
+	for id := range w.Pruned {
+		tw.Pruned[id] = true
+	}
+	w.Twin, w.TouchedSince = tw, map[string]bool{}
+	cmd := tw.Build(Op{Kind: "compact"})
+	out.Cmd = cmd
+	res := Run(cmd)
+	out.Exit, out.Stdout, out.Stderr = res.Code, clip(res.Stdout, 500), clip(res.Stderr, 500)
+	if !res.OK() {
+		bad("compact failed on a copy of the store: %s", clip(res.Stderr, 300))
+		return out
+	}
+	snapT, err := TakeSnapshot(tw.Root)
+	if err != nil {
+		bad("store unreadable after compact: %v", err)
+		return out
+	}
+	for _, d := range DiffSnap(pre, snapT, DiffOpts{RootA: w.Root, RootB: tw.Root}) {
+		bad("compact changed what a reader sees: %s", d)
+	}
+	for _, inc := range snapT.Inconsistent {
+		bad("after compact: %s", inc)
+	}
+	// idempotence
+	log1 := ReadLog(tw.Root)
+	res2 := Run(cmd)
+	if !res2.OK() {
+		bad("second compact failed: %s", clip(res2.Stderr, 300))
+		return out
+	}
+	log2 := ReadLog(tw.Root)
+	e1, err1 := ParseLog(log1)
+	e2, err2 := ParseLog(log2)
+	if err1 != nil || err2 != nil {
+		bad("compacted log does not parse: %v %v", err1, err2)
+		return out
+	}
+	if len(e1) != len(e2) {
+		bad("compacting a compacted log changed the number of events (%d -> %d)", len(e1), len(e2))
+	} else {
+		for i := range e1 {
+			a, b := e1[i], e2[i]
+			if a.Type == "link" || a.Type == "unlink" {
+				a.TS, b.TS = "", ""
+			}
+			if !reflect.DeepEqual(a, b) {
+				bad("compacting a compacted log changed event %d (%s)", i+1, a.Type)
+				break
+			}
+		}
+	}
+	return out
+}
+
+// stepTwin applies op to the compacted twin and demands the same outcome as on the main
+// store: same exit status, same observable state (new ids matched through the op that
+// created them; timestamps of items touched since the fork are wall-clock values of two
+// different runs and are not compared).
+func (w *World) stepTwin(op Op, main *StepOut) []Violation {
+	tw := w.Twin
+	var out []Violation
+	bad := func(f string, a ...any) { out = append(out, Violation{"C05", fmt.Sprintf(f, a...)}) }
+	tw.writeFiles(op.Files)
+	cmd := tw.Build(op)
+	var release func()
+	if op.HoldLock {
+		release = holdLock(tw.Root)
+	}
+	res := Run(cmd)
+	if release != nil {
+		release()
+	}
+	if res.OK() != main.Accepted {
+		bad("after compaction `%s` exits %d, without compaction %d (%s)", strings.Join(cmd.Args, " "), res.Code, main.Exit, clip(res.Stderr, 200))
+		return out
+	}
+	snapT, err := TakeSnapshot(tw.Root)
+	if err != nil {
+		bad("compacted store unreadable after `%s`: %v", strings.Join(cmd.Args, " "), err)
+		return out
+	}
+	// learn the twin's new ids from its reply, in the same order as the main run did
+	if res.OK() && !op.NoJSON {
+		var reply map[string]any
+		if StrictJSON(res.Stdout, &reply) == nil {
+			var ids []string
+			switch op.Kind {
+			case "new_task", "new_epic":
+				ids = append(ids, asString(reply["id"]))
+			case "plan":
+				if ep, ok := reply["epic"].(map[string]any); ok {
+					ids = append(ids, asString(ep["id"]))
+				}
+				if arr, ok := reply["tasks"].([]any); ok {
+					for _, x := range arr {
+						m, _ := x.(map[string]any)
+						ids = append(ids, asString(m["id"]))
+					}
+				}
+			}
+			for _, id := range ids {
+				if id != "" && snapT.Items[id] != nil && !tw.Seen[id] {
+					tw.AddID(id, op.N)
+				}
+			}
+		}
+	}
+	for id := range main.Touched {
+		w.TouchedSince[id] = true
+	}
+	for _, id := range main.NewIDs {
+		w.TouchedSince[id] = true
+	}
+	rename := map[string]string{}
+	for id, o := range tw.Origin {
+		if mid, ok := w.ByOrig[o]; ok {
+			rename[id] = mid
+		}
+	}
+	mapped := snapT.RenameIDs(rename)
+	for _, id := range keysOfItems(main.Post, mapped) {
+		a, b := main.Post.Items[id], mapped.Items[id]
+		if a == nil || b == nil {
+			bad("after `%s`: item %s exists in only one of the compacted / uncompacted stores", strings.Join(cmd.Args, " "), id)
+			continue
+		}
+		o := DiffOpts{RootA: w.Root, RootB: tw.Root}
+		if w.TouchedSince[id] {
+			o.IgnoreUpdatedAt, o.IgnoreClaimedAt, o.IgnoreCreatedAt, o.IgnoreUUID, o.IgnoreResultTS = true, true, true, true, true
+		}
+		for _, d := range diffItemMasked(a, b, o, w.TouchedSince[id]) {
+			bad("after `%s` the compacted store differs: %s", strings.Join(cmd.Args, " "), d)
+		}
+	}
+	return out
+}
+
+func keysOfItems(a, b *Snapshot) []string {
+	m := map[string]bool{}
+	for id := range a.Items {
+		m[id] = true
+	}
+	for id := range b.Items {
+		m[id] = true
+	}
+	return keys(m)
+}
+
+// diffItemMasked is diffItem with the volatile parts of results (mtime is stable, created_at
+// is wall clock) masked for items touched since the fork.
+func diffItemMasked(a, b *Item, o DiffOpts, touched bool) []string {
+	if !touched {
+		return diffItem(a, b, o)
+	}
+	x, y := a.Clone(), b.Clone()
+	return diffItem(x, y, o)
 }
